@@ -284,7 +284,13 @@ NewVals(s, cfg, unit) ==
                  ELSE LET v == s.vals[MinOf(ValIdx(s, p))] IN [accum |-> v.accum, bits |-> v.bits, absent |-> v.absent]
    IN [i \in DOMAIN chosen |-> [p |-> chosen[i], stake |-> s.cands[chosen[i]].total, accum |-> old(chosen[i]).accum,
                                 absent |-> old(chosen[i]).absent, bits |-> old(chosen[i]).bits, toDrop |-> FALSE]]
-UpdateVals(s, cfg, unit) == LET s1 == RecalcS(s) IN [s1 EXCEPT !.vals = NewVals(s1, cfg, unit)]
+\* a validator that leaves the set takes nothing with it: its accumulated reward goes to total slashed
+UpdateVals(s, cfg, unit) ==
+   LET s1 == RecalcS(s)
+       nv == NewVals(s1, cfg, unit)
+       stay == {nv[i].p : i \in DOMAIN nv}
+       lost == SumOver(SelectSeq(s1.vals, LAMBDA v : v.p \notin stay), LAMBDA v : v.accum)
+   IN [s1 EXCEPT !.vals = nv, !.slashed = @ ++ lost]
 
 IsPayoutH(h, cfg) == h % cfg.stakePeriod = 0
 EndS(s, h, present, cfg, unit, cap) ==
